@@ -95,7 +95,7 @@ def run():
     rep = next((x for x in results[0].json_lines if x.get("k") == "report"), None)
     if rep is None:
         raise MachineryError("MC_Registry printed no report\n" + results[0].stdout[-2000:])
-    witnesses = {k: v for k, v in rep["witnesses"].items() if v}
+    witnesses = {k: v for k, v in rep["witnesses"].items() if v and k != "counts"}
     tlc_violated = {v[2:] if v.startswith("I_") else v for v in results[0].violated}
     if bool(witnesses.keys() - {"FilesInjective"}) != bool(tlc_violated):
         raise MachineryError("MC_Registry: witnesses %s but TLC reported %s" % (sorted(witnesses), sorted(tlc_violated)))
@@ -129,9 +129,12 @@ def run():
         for up in (False, True):
             work.append({"tag": "unknown", "loads": [dict(name=u, canon="", doc="unknown", unpack=up, mode="fresh")]})
     remote = [r["name"] for r in registry if r["kind"] == "remote"]
-    for i, n in enumerate(live):           # the neighbour's genuine payload must be refused (distinct pinned checksums)
-        other = live[(i + 1) % len(live)]
-        if other != n:
+    # another dataset's genuine payload must be refused (distinct pinned checksums): the next dataset's (quick),
+    # every other dataset's (thorough)
+    for i, n in enumerate(live):
+        for other in ([x for x in live if x != n] if c.thorough else [live[(i + 1) % len(live)]]):
+            if other == n:
+                continue
             work.append({"tag": "foreign", "loads": [dict(name=n, canon=n, doc="remote", unpack=False, mode="foreign",
                                                           foreign=other, prev=other)]})
 
